@@ -24,8 +24,9 @@ type Case struct {
 
 func Spec() *mon.Spec {
 	return &mon.Spec{
-		ID:    "C18",
-		Level: "exploration",
+		ID:      "C18",
+		RuleAdd: "Later additions (rounds 4-17): complete valid requests followed by padding under one header; typed-nil dispatcher errors and typed-nil requests; header cubes over length field x function code incl. lengths below a header's size.",
+		Level:   "exploration",
 		Rule: "prefix: request frames built by the library's constructors (all 10 functions, min/interior/max sizes, PRNG arguments); LooksLikeModbusTCP(prefix, false|true) for every prefix: <8 bytes => exactly ErrTCPDataTooShort; >=8 => (len(frame), nil) with len(frame)==6+length field. " +
 			"cube: 8-byte headers over length field x function code 0..255 x protocol id {0,1,0x0100,0xFFFF}: protocol!=0 or fc==0 => refused as not-a-packet (never 'too short'); accepted => n==6+length; unsupported fc with length>=3 => (6+length, *ErrorParseTCP) whose Bytes() is the 9-byte illegal-function exception carrying the header's tid/unit/fc. " +
 			"agree: for every accepted (fc, n<=300 and sampled larger) ParseTCPRequest on n bytes (zero/FF/PRNG/plausible bodies) returns a request or an *ErrorParseTCP whose Bytes() is a well-formed 9-byte exception ADU; never a panic or another error type. distinct key=(kind, fc, length, flag, outcome).",
